@@ -30,6 +30,11 @@ def saveContent (r : Reply) : Bool :=
 session-creation and change requests (the API defines success there by the status code). -/
 def bodyMatters (b : Backend) (ρ : Role) : Bool := !(b == .nsx && (ρ == .change || ρ == .login))
 
+/-- net/http replays a GET (and nothing else) when a reused connection is closed before any
+byte of the reply: such a close is not seen by the code. -/
+def replayed (b : Backend) (ρ : Role) (r : Reply) : Bool :=
+  r.arr == .closed && (b == .panos || (b == .nsx && ρ == .read))
+
 /-- **Device-side failure as the property states it**: the device stops answering, closes,
 garbles the echo, prints error text or unexpected output, answers with an HTTP error status or
 a malformed body, reports a non-zero exit status, or does not confirm the save. -/
@@ -37,17 +42,18 @@ def badFull (b : Backend) (ρ : Role) (r : Reply) : Bool :=
   !promptArrives r || !r.status200 || (!r.parses && bodyMatters b ρ)
   || (Backend.isConsole b && (!r.echoOk || r.out == .text))
   || (ρ == .probe && !r.flags.contains .status0)
-  || (ρ == .save && b != .linux && !saveContent r)
+  || (ρ == .save && b != .linux && promptArrives r && !saveContent r)
 
 /-- The part of `badFull` for which the property is proved: everything except error text,
 unexpected output or a garbled echo in the reply to a command whose output the code does not
 inspect (login, set-up and show commands, configuration retrieval, save output besides the
-confirmation).  The complement is the class of findings F-C09a / F-C09b. -/
+confirmation), and except a connection close that net/http hides by replaying the request.
+The complement is the class of findings F-C09a / F-C09b / F-C09c. -/
 def badChecked (b : Backend) (ρ : Role) (r : Reply) : Bool :=
-  !promptArrives r || !r.status200 || (!r.parses && bodyMatters b ρ)
+  (!promptArrives r && !replayed b ρ r) || !r.status200 || (!r.parses && bodyMatters b ρ)
   || (Backend.isConsole b && (ρ == .change) && (!r.echoOk || r.out == .text))
   || (ρ == .probe && ((Backend.isConsole b && !r.echoOk) || !r.flags.contains .status0))
-  || (ρ == .save && b != .linux && !saveContent r)
+  || (ρ == .save && b != .linux && promptArrives r && !saveContent r)
 
 theorem badChecked_imp_badFull (b : Backend) (ρ : Role) (r : Reply) :
     badChecked b ρ r = true → badFull b ρ r = true := by
